@@ -175,6 +175,8 @@ def judge(variant, proxy, http1, http2, alpn, reqs, w, topo, plan, results, res,
         return out
     sight = topo.sightings()
     used_conns = {}
+    if w.net.stale_layer_ops:
+        bad("tls-bypassed", f"I/O through the pre-TLS stream object after the upgrade (bytes written underneath the TLS session): {w.net.stale_layer_ops[:3]}")
     for i, (url, ext, scheme, host, port, sni) in enumerate(plan):
         r = results[i]
         tok = f"q{i}".encode()
